@@ -1089,6 +1089,7 @@ impl CompositionGraph {
     ///
     /// This method panics if the provided node id is invalid.
     pub fn unexport(&mut self, node: NodeId) -> Result<(), UnexportError> {
+        let index = node.0;
         #[cfg(wac_verif)]
         if verif::enabled() {
             verif::emit(format!(
@@ -1110,6 +1111,9 @@ impl CompositionGraph {
             let removed = self.exports.swap_remove(&name);
             assert!(removed.is_some());
         }
+
+        // A node may have been exported under several names; release all of them
+        self.exports.retain(|_, n| *n != index);
 
         Ok(())
     }
@@ -1168,6 +1172,7 @@ impl CompositionGraph {
             "removing node {index} from the graph",
             index = node.0.index()
         );
+        let index = node.0;
         let node = self.graph.remove_node(node.0).expect("invalid node id");
 
         // Remove any import entry
@@ -1183,6 +1188,9 @@ impl CompositionGraph {
             let removed = self.exports.swap_remove(name);
             assert!(removed.is_some());
         }
+
+        // A node may have been exported under several names; release all of them
+        self.exports.retain(|_, n| *n != index);
 
         if let NodeKind::Definition = node.kind {
             log::debug!(
